@@ -131,7 +131,15 @@ StepRecv(e) ==
          A3 == If(acc /\ e.own, {Alarm("AcceptedOwnIndex", e, e.kind)})
          A4 == If(acc /\ e.round > RoundAt(e.toClock) + 1, {Alarm("AcceptedFuturePartial", e, e.kind)})
          A5 == If(e.res \in {"blocked", "panic"}, {Alarm("HandlerDidNotReturn", e, e.res)})
-     IN /\ alarms' = alarms \cup A1 \cup A2 \cup A3 \cup A4 \cup A5
+         \* Beacon.tla (RecvPartial): a partial that is valid under the epoch due for its round, comes from another member,
+         \* is for a round above the stored head and not beyond the next round, reaches the aggregator.  A node that turns
+         \* such a partial away does not by itself break a listed property (the chain goes on through the others and
+         \* sync), so this is conformance, not a verdict.
+         A6 == If(~acc /\ "idx" \in DOMAIN e /\ e.res \in {"ok", "err"} /\ e.valid /\ e.member /\ ~e.own /\ e.epoch >= 0
+                  /\ e.epoch = DueEpoch(e.to, e.round) /\ epochOf[e.to] = e.epoch
+                  /\ e.round > HeadOf(store[e.to]) /\ e.round <= RoundAt(e.toClock) + 1 /\ upN[e.to],
+                  {Alarm("Conformance", e, "a valid in-window partial of another member was not handed to the aggregator")})
+     IN /\ alarms' = alarms \cup A1 \cup A2 \cup A3 \cup A4 \cup A5 \cup A6
         /\ got' = IF ~acc /\ "idx" \in DOMAIN e /\ e.valid /\ e.member /\ ~e.own   \* a VALID partial that was turned away does not count; a rejected forgery removes nothing
                     THEN [got EXCEPT ![e.to] = {x \in @ : ~(x[1] = e.round /\ x[2] = e.prevd /\ x[3] = e.idx)}] ELSE got
         /\ epochOf' = IF "epoch" \in DOMAIN e /\ e.epoch >= 0 THEN [epochOf EXCEPT ![e.to] = e.epoch] ELSE epochOf
